@@ -461,7 +461,7 @@ def shrink(exe, drv, env, lines, want_oracle, pagesize):
 def run(ctx):
     rng = ctx.rng
     quick = ctx.tier == "quick"
-    _gen.regen(ctx, ["Mpool"])      # Gen/Mpool.v regenerated from the source + Properties_Gen_C14.v (tools/ctrans.py)
+    _gen.regen(ctx, ["Mpool", "Gcd"])      # Gen/Mpool.v regenerated from the source + Properties_Gen_C14.v (tools/ctrans.py)
     pr = ctx.coq_properties("Properties/Properties_C14.v")
     exe = ctx.link("c14_mpool", ["c14_mpool.c"], exclude=["mpool.c"])
     drv = ctx.model_driver("c14_driver")
